@@ -30,6 +30,10 @@ def report_known(ck, wit, hits):
     for fid, cnt in hits.items():
         if wit.get(fid, True):
             ck.known_hits[fid] = ck.known_hits.get(fid, 0) + cnt
+    # findings outside the generator's space: reported from their recorded witness alone, while it still fails
+    for k in ck.open_findings():
+        if k.get("witness_only") and wit.get(k["id"]):
+            ck.known_hits[k["id"]] = ck.known_hits.get(k["id"], 0) + 1
 
 
 def fill_cov(ck, recs, nontrivial, rule, extra=None):
